@@ -293,6 +293,48 @@ class Impl:
             self.cell.remove_identity_group(group_name(op[1]))
         elif k == 'Tick':
             self.clock.now = op[1]
+        elif k == 'Restore':
+            # Loader.restore_placement, the body of its loop for one recorded instance. The generator names the server
+            # and says how to choose; instance and identity are resolved here against the live state so that the call
+            # is one the loader can make (the instance is on no server; a recorded identity is one nobody else holds).
+            _, sid, pick, verbatim, exp_delta, ident_mode = op
+            srv = self.servers.get(sid)
+            if len(op) > 6:
+                unplaced = [op[6]] if (app_name(op[6]) in self.cell.apps and not self.cell.apps[app_name(op[6])].server) else []
+            else:
+                unplaced = sorted(self.app_ids[a.name] for a in self.cell.apps.values() if not a.server)
+            if srv is None or not unplaced:
+                return 'noop'
+            aid = unplaced[pick % len(unplaced)]
+            app = self.cell.apps[app_name(aid)]
+            grp = app.identity_group_ref
+            ident = None
+            if grp is not None:
+                held = {a.identity for a in self.cell.apps.values()
+                        if a is not app and a.identity_group == app.identity_group and a.identity is not None}
+                if ident_mode == 'own' and app.identity is not None:
+                    ident = None
+                elif ident_mode == 'beyond':
+                    ident = next(i for i in range(grp.count + pick % 3, grp.count + 50) if i not in held)
+                else:
+                    free = sorted(i for i in grp.available if i not in held)
+                    if free:
+                        ident = free[pick % len(free)]
+                    elif app.identity is None:
+                        return 'noop'
+            expires = self.clock.now + exp_delta
+            if verbatim:
+                restored = srv.restore(app, expires)
+            elif app.schedule_once:
+                restored = False
+            else:
+                restored = srv.put(app)
+            if not restored:
+                if app.schedule_once:
+                    self.cell.remove_app(app.name)
+            elif ident is not None:
+                app.force_set_identity(ident)
+            return ('resolved', ['RestoreAt', sid, aid, bool(verbatim), expires, ident])
         elif k == 'Schedule':
             self.choices = []
             self.queues = []
@@ -447,6 +489,8 @@ def run_history(case, want_trace=True):
                                       'tracker_skipped': list(impl.tracker_skipped)})
                 else:
                     rc = impl.apply(op)
+                    if isinstance(rc, tuple) and rc[0] == 'resolved':
+                        op = rc[1]
                     ops_out.append(['Tick', impl.clock.now] if rc == 'noop' else op)
                     d = impl.dump()
                     if want_trace:
@@ -527,6 +571,8 @@ def t_op(op):
         return '(ORemoveGroup %s)' % G.z(op[1])
     if k == 'Tick':
         return '(OTick %s)' % G.z(op[1])
+    if k == 'RestoreAt':
+        return '(ORestore %s %s %s %s %s)' % (G.z(op[1]), G.z(op[2]), G.b(op[3]), G.z(op[4]), G.opt(op[5], G.z))
     if k == 'Schedule':
         return '(OSchedule %s)' % G.lst(['(%s, %s)' % (G.z(a), G.z(i)) for a, i in op[1]])
     raise ValueError(k)
